@@ -5,6 +5,10 @@ HERE = os.path.dirname(os.path.abspath(__file__))
 
 CLAIMED = {
  # id: (category, text, note, technique)
+ 'C09': ('other',
+         'The jit-compiled validity test (_check_conns, _validate_matrix) is proved equivalent to the statement-level definition of a valid connection matrix for all matrices/settings (deductive, unbounded); enumeration and counting are only bounded.',
+         'Trusted: pyvc encoding incl. numpy 1-D/2-D model, numba compiles Python semantics, int64 as mathematical ints, lemma sum-of-nonnegatives >= 0; enumeration bounded only.',
+         'contract-based deductive verification (self-generated VCs from the real AST + sidecar contracts, z3/cvc5) with bounded run-time contract checking as labelled stand-in'),
  'C16': ('other',
          'Clamp/report clauses of the design-variable value path are discharged deductively for all inputs (pyvc: VCs generated from the real source, z3/cvc5); the existence-coverage clause is only bounded.',
          'Trusted: pyvc encoding of the Python subset, z3/cvc5, floats as exact reals, ints mathematical; assumed callee contracts are listed in the evidence.',
